@@ -475,7 +475,10 @@ func gen(tier string, emit0 func(engine.Case) bool) {
 	}
 	// every number of the table as an index key
 	for _, n := range numberTable {
-		if n.unspec {
+		if n.unspec || strings.Contains(n.name, ":") {
+			// keys carried at fewer than 512 bits are left out: how such a key
+			// is rendered as a map key depends on its precision, which no
+			// source text can carry
 			continue
 		}
 		if !emit(travCase("a", []Step{{"num", n.name}})) || !emit(travCase("", []Step{{"num", n.name}, {"attr", "b"}})) {
